@@ -594,6 +594,7 @@ def run(ctx):
     attribute_values(ctx)
     attributes_by_context(ctx)
     typed_by_xsi(ctx)
+    encoded_array_items(ctx)
     ctx.sample({"parse": cases[5]})
     ctx.sample({"parse": cases[len(cases) // 2]})
     ctx.sample({"decimal": str(vals[0]) if vals else None})
@@ -732,6 +733,44 @@ def typed_by_xsi(ctx):
         if not ok:
             ctx.fail("a leaf typed by xsi:type is not converted by that type", meta, repr(got),
                      "ValueError" if want is ValueError else repr(want))
+
+
+def encoded_array_items(ctx):
+    """The items of a SOAP-encoded array are values of the item type like any other leaf: written in the item type's
+    XSD lexical form."""
+    import datetime
+    import decimal
+    arrays = {"boolean": [(True, "true"), (False, "false")],
+              "double": [(float("inf"), "INF"), (float("-inf"), "-INF"), (float("nan"), "NaN"), (2.5, "2.5"), (1, "1")],
+              "float": [(float("inf"), "INF"), (0.5, "0.5")],
+              "decimal": [(decimal.Decimal("1E+3"), "1000"), (decimal.Decimal("1.50"), "1.5"), (decimal.Decimal("250.00"), "250"), (7, "7")],
+              "int": [(7, "7"), (-3, "-3")],
+              "string": [("true", "true"), ("x y", "x y")],
+              "date": [(datetime.date(2001, 2, 3), "2001-02-03")],
+              "dateTime": [(datetime.datetime(2001, 2, 3, 4, 5, 6), "2001-02-03T04:05:06")]}
+    schema = '<xsd:import namespace="http://schemas.xmlsoap.org/soap/encoding/"/>' + "".join(
+        '<xsd:complexType name="ArrayOf_%s"><xsd:complexContent><xsd:restriction base="soapenc:Array"><xsd:attribute '
+        'ref="soapenc:arrayType" wsdl:arrayType="xsd:%s[]"/></xsd:restriction></xsd:complexContent></xsd:complexType>' % (t, t)
+        for t in sorted(arrays))
+    names = sorted(arrays)
+    w = wsdlkit.wsdl_doc(schema, style="rpc", use="encoded",
+                         in_parts=[("p_%s" % t, "type", "x:ArrayOf_%s" % t) for t in names],
+                         out_parts=[("return", "type", "xsd:string")])
+    c = wsdlkit.client(w, nosend=True)
+    meta = {"stream": "encoded-array-items"}
+    ctx.case(common.canon(meta), True)
+    try:
+        env = wsdlkit.envelope_bytes(c.service.f(*[[v for v, _l in arrays[t]] for t in names]))
+        fnode = xmlread.find1(xmlread.parse(env), "Body")["children"][0]
+        got = {p["name"][1][2:]: [i.get("text") for i in p["children"]] for p in fnode["children"]}
+    except Exception as e:
+        got = "%s: %s" % (type(e).__name__, e)
+    want = {t: [l for _v, l in arrays[t]] for t in names}
+    if got != want:
+        bad = sorted(t for t in names if not isinstance(got, dict) or got.get(t) != want[t])
+        ctx.fail("the items of an encoded array are not written in the lexical form of the item type",
+                 dict(meta, types=bad), got if not isinstance(got, dict) else {t: got.get(t) for t in bad},
+                 {t: want[t] for t in bad})
 
 
 def restricted_untranslated():
